@@ -31,6 +31,8 @@ type Engine struct {
 	specUFs  map[string]*specUF
 	loadErrs []string
 	mu       sync.Mutex
+	immut    map[string]map[string]bool // component -> functions allowed to write it
+	immutErr []string
 }
 
 type globalInfo struct {
@@ -114,6 +116,7 @@ func loadEngine(repo, verifDir string) (*Engine, error) {
 		}
 	}
 	e.scanGlobals()
+	e.resolveImmutable()
 	return e, nil
 }
 
@@ -141,7 +144,7 @@ func anonKey(f *ssa.Function) string {
 	for p.Parent() != nil {
 		p = p.Parent()
 	}
-	return p.Pkg.Pkg.Name() + "." + strings.TrimPrefix(f.String(), p.Pkg.Pkg.Path()+".")
+	return strings.TrimSuffix(fnDisplay(p), p.Name()) + f.Name()
 }
 
 func (e *Engine) funcKey(f *ssa.Function) string {
@@ -954,4 +957,109 @@ func (fx *FuncCtx) havocPointee(st *State, v ssa.Value) bool {
 	nv := fx.freshVal(st, "decoded", pt.Elem())
 	fx.storeField(st, ref, pt.Elem(), nil, pt.Elem(), nv.T)
 	return true
+}
+
+// resolveImmutable turns `immutable` declarations into heap component names and
+// checks syntactically that no other repository function writes those fields
+// or lets their address escape.
+func (e *Engine) resolveImmutable() {
+	e.immut = map[string]map[string]bool{}
+	type fld struct {
+		t   types.Type
+		idx int
+	}
+	targets := map[string]fld{}
+	for _, d := range e.specs.Immutable {
+		pkg := e.pkgByName(d.Pkg)
+		if pkg == nil {
+			e.immutErr = append(e.immutErr, fmt.Sprintf("%s:%d: unknown package %s", d.File, d.Line, d.Pkg))
+			continue
+		}
+		tn, ok := pkg.Scope().Lookup(d.Type).(*types.TypeName)
+		if !ok {
+			e.immutErr = append(e.immutErr, fmt.Sprintf("%s:%d: immutable: type %s no longer exists", d.File, d.Line, d.Type))
+			continue
+		}
+		st, ok := tn.Type().Underlying().(*types.Struct)
+		if !ok {
+			continue
+		}
+		allowed := map[string]bool{}
+		for _, f := range d.Init {
+			allowed[d.Pkg+"."+f] = true
+		}
+		for _, fname := range d.Fields {
+			found := false
+			for i := 0; i < st.NumFields(); i++ {
+				if st.Field(i).Name() == fname {
+					c := compName(tn.Type(), []int{i})
+					e.immut[c] = allowed
+					targets[c] = fld{tn.Type(), i}
+					found = true
+				}
+			}
+			if !found {
+				e.immutErr = append(e.immutErr, fmt.Sprintf("%s:%d: immutable: %s has no field %s", d.File, d.Line, d.Type, fname))
+			}
+		}
+	}
+	if len(targets) == 0 {
+		return
+	}
+	var visit func(key string, f *ssa.Function)
+	visit = func(key string, f *ssa.Function) {
+		for _, b := range f.Blocks {
+			for _, ins := range b.Instrs {
+				fa, ok := ins.(*ssa.FieldAddr)
+				if !ok {
+					continue
+				}
+				root := deref(fa.X.Type())
+				c := ""
+				if _, isNamed := root.(*types.Named); isNamed {
+					c = compName(root, []int{fa.Field})
+				}
+				allowed, isImm := e.immut[c]
+				if !isImm || allowed[key] {
+					continue
+				}
+				for _, ref := range *fa.Referrers() {
+					switch r := ref.(type) {
+					case *ssa.UnOp:
+						// load
+					case *ssa.Store:
+						if r.Addr == fa {
+							e.immutErr = append(e.immutErr, fmt.Sprintf("field declared immutable is written in %s (%s)", key, e.describe(f, r)))
+						}
+					case *ssa.FieldAddr, *ssa.DebugRef:
+					default:
+						e.immutErr = append(e.immutErr, fmt.Sprintf("address of a field declared immutable escapes in %s (%s)", key, e.describe(f, ref)))
+					}
+				}
+			}
+		}
+	}
+	for key, f := range e.funcs {
+		if e.isSpecFunc(f) {
+			continue
+		}
+		top := key
+		if i := strings.Index(key, "$"); i > 0 {
+			top = key[:i]
+		}
+		visit(top, f)
+	}
+	sort.Strings(e.immutErr)
+}
+
+// isImmutableFor reports whether comp is a constant inside the function with the given key.
+func (e *Engine) isImmutableFor(comp, key string) bool {
+	allowed, ok := e.immut[comp]
+	if !ok {
+		return false
+	}
+	if i := strings.Index(key, "$"); i > 0 {
+		key = key[:i]
+	}
+	return !allowed[key]
 }
